@@ -80,9 +80,13 @@ def build_server_bin():
 
 # ---------------------------------------------------------------- TLC
 
+import itertools
+_META_SEQ = itertools.count()          # unique per call: several judge threads start in the same millisecond
+
+
 def tlc(module, cfg_path, workers=8, timeout=600, metadir=None, env=None, extra=None, heap="8g", java_opts="", gc="-XX:+UseParallelGC"):
     """Run TLC; returns combined output.  Raises ToolError on timeout."""
-    metadir = metadir or os.path.join(BUILD, "tlc", "m%d_%d" % (os.getpid(), int(time.time() * 1000) % 10**9))
+    metadir = metadir or os.path.join(BUILD, "tlc", "m%d_%d_%d" % (os.getpid(), int(time.time() * 1000) % 10**9, next(_META_SEQ)))
     os.makedirs(metadir, exist_ok=True)
     cmd = ["java", gc, f"-Xmx{heap}"] + java_opts.split() + ["-cp", TLA_CP, "tlc2.TLC",
            "-workers", str(workers), "-metadir", metadir, "-cleanup", "-noGenerateSpecTE",
